@@ -12,6 +12,7 @@ import DtnVerif.Props.C06
 import DtnVerif.Props.C07
 import DtnVerif.Props.C08
 import DtnVerif.Props.C09
+import DtnVerif.Props.C01Bound
 import DtnVerif.Props.C10
 import DtnVerif.Props.C11
 import DtnVerif.Props.C12
